@@ -305,7 +305,7 @@ def checkSig (cfg : Cfg) (st : St) (sig key : Bytes) : R (Bool × St) :=
   | .TAPROOT =>
     match cfg.oracle.schnorr sig key .TAPROOT st.codesepPos with
     | .ok () => .ok (true, st)
-    | .error _ => .error .UNKNOWN_ERROR
+    | .error x => .error x          -- the Schnorr error of the key-path check (size, hash type, invalid signature)
 
 /-- CHECKMULTISIG matching: signatures are matched to keys in order (both lists top-of-stack first =
     first-to-be-checked first); fails as soon as more signatures than keys remain -/
